@@ -23,6 +23,8 @@ def model_diff(ctx, mode, ops, cf):
             return i + 1
     return None
 
+from props import runlib
+
 
 def run(ctx):
     ctx.trusted += [
@@ -88,3 +90,27 @@ def run(ctx):
                 f = dict(x.split("=", 1) for x in l.split()[1:])
                 ctx.violation(f["kind"], {"cause": f["cause"], "lp": f["lp"], "events_of_lp1": f["events"],
                                           "replay_argv": st["argv"]}, True)
+
+    # the CALL SITES of the termination module in process.c (after every forward execution, after every straggler / local
+    # anti-message / remote anti-message rollback) and every vote: full runs under the scheduler re-executed on the model, which
+    # predicts each termination_on_msg_process / termination_on_lp_rollback / vote event and its lps_to_end value; models with small
+    # thresholds so that LPs satisfy their predicate speculatively and are rolled back afterwards
+    import random
+    import concurrent.futures
+    if runlib.build(ctx):
+        rnd = random.Random(ctx.seed * 13 + 1)
+        cfgs = []
+        for i in range(20 if ctx.tier == "quick" else 500):
+            c = runlib.gen_configs(ctx, 1)[0]
+            c.update({"seed": rnd.randrange(1, 1 << 30), "mseed": rnd.randrange(1, 1 << 30), "lps": rnd.choice([2, 3, 4, 6]),
+                      "thr": rnd.choice([5, 10, 20, 40]), "spread": rnd.choice([0, 5, 30]), "threads": rnd.choice([1, 2, 3, 4]),
+                      "burst": rnd.choice([20, 60, 200, 600]), "period": rnd.choice([0, 10]), "fan": rnd.choice([3, 4]), "mem": 0,
+                      "t0": rnd.choice([0, 1])})
+            cfgs.append(c)
+        agg = runlib.Agg()
+        with concurrent.futures.ThreadPoolExecutor(max_workers=12) as ex:
+            for r in ex.map(lambda ic: runlib.run_one(ctx, "par", ic[1], "t%d" % ic[0]), enumerate(cfgs)):
+                agg.add(r)
+        runlib.standard_verdicts(ctx, agg, "termination bookkeeping and votes of full runs (call sites in process.c included)",
+                                 ("s_vote_false_pred",))
+        ctx.coverage["full_run_votes"] = agg.tot.get("votes", 0)
